@@ -6,6 +6,9 @@
 (* is consumed (CleanerSys).  Decides V1.                                        *)
 EXTENDS ProcessProp, TraceIO
 
+\* the processes that create a guard for the path: "G" first, "G2" a later incarnation (after G has died / gone)
+Guards == {"G", "G2"}
+
 VARIABLE l
 tvars == <<pvars, l>>
 
@@ -18,10 +21,10 @@ Consume ==
        CASE e.k = "reset" -> PReset
          [] e.k = "sys" /\ e.p \in Cleaners -> CleanerSys(e.p, e.op, e.f, e.obs)
          [] e.k = "sys" -> UNCHANGED pvars
-         [] e.k = "crash" /\ e.p = "G" -> GuardCrash
+         [] e.k = "crash" /\ e.p \in Guards -> GuardCrash
          [] e.k = "crash" /\ e.p \in Cleaners -> CleanerCrash(e.p)
          [] e.k = "crash" -> UNCHANGED pvars
-         [] e.k = "ev" /\ e.p = "G" -> GuardEvent(e.ev)
+         [] e.k = "ev" /\ e.p \in Guards -> GuardEvent(e.ev)
          [] e.k = "ev" /\ e.ev = "qstart" -> QueryStart(e.p)
          [] e.k = "ev" /\ e.ev = "verdict" -> Verdict(e.p, e.lv, e.v, l)
          [] e.k = "ev" /\ e.ev = "cstart" -> CleanerStart(e.p, e.v = "fault")
